@@ -605,4 +605,51 @@ theorem angle_bracket_not_closed : ¬ AdjacentStable toyLexer [32] (.langle true
   revert this
   decide
 
+/-!
+# Part 3: where the macro expander is *not* trivia-insensitive (witnesses; replayed on the real code by
+the corpus lines `hand:newline-between-macro-name-and-paren` and `hand:newline-in-empty-macro-args`)
+-/
+
+/-- trivia without a line break between a function-like macro's name and `(` never matters … -/
+theorem macro_call_gap_inline_insensitive (gap rest : List PTok)
+    (h : ∀ t ∈ gap, t = .whitespace ∨ t = .comment ∨ t = .physicalEndline) :
+    activatesFunctionMacro (gap ++ rest) = activatesFunctionMacro rest := by
+  induction gap with
+  | nil => rfl
+  | cons t gap ih =>
+    have ht := h t (by simp)
+    have ih' := ih (fun u hu => h u (by simp [hu]))
+    unfold activatesFunctionMacro at ih' ⊢
+    rcases ht with rfl | rfl | rfl <;>
+      simpa [trimWhitespaceStart, PTok.isWs] using ih'
+
+/-- … but a line break there does, as long as `trim_whitespace_start` keeps `Endline` tokens and
+    `find_single_macro` uses it (both re-read from the source on every run): **the property is false on
+    the current code** — `F <newline> (` is not an invocation although `F (` is.  (C11 6.10.3p10 counts
+    new-lines as white space here.) -/
+theorem macro_call_gap_linebreak_witness : trimKeepsEndline = true → findMacroUsesTrimStart = true →
+    activatesFunctionMacro [.whitespace, .leftParen] = true ∧
+    activatesFunctionMacro [.comment, .physicalEndline, .leftParen] = true ∧
+    activatesFunctionMacro [.endline, .leftParen] = false ∧
+    activatesFunctionMacro [.comment, .endline, .leftParen] = false := by decide
+
+/-- once `trim_whitespace_start` also skips `Endline`, every kind of trivia in the gap is harmless -/
+theorem macro_call_gap_insensitive_if_fixed (hfix : trimKeepsEndline = false) (gap rest : List PTok)
+    (h : ∀ t ∈ gap, t.isWs = true) :
+    activatesFunctionMacro (gap ++ rest) = activatesFunctionMacro rest := by
+  induction gap with
+  | nil => rfl
+  | cons t gap ih =>
+    have ht := h t (by simp)
+    have ih' := ih (fun u hu => h u (by simp [hu]))
+    unfold activatesFunctionMacro at ih' ⊢
+    simpa [trimWhitespaceStart, ht, hfix] using ih'
+
+/-- the same for the empty argument list of a zero-parameter macro: `Z( )` is accepted, `Z(<newline>)` is not -/
+theorem empty_argument_linebreak_witness :
+    trimKeepsEndline = true → macroArgsUseTrim = true → emptyArgsTestIsEmpty = true →
+    acceptsEmptyArgument [] = true ∧ acceptsEmptyArgument [.whitespace, .comment] = true ∧
+    acceptsEmptyArgument [.endline] = false ∧ acceptsEmptyArgument [.whitespace, .endline, .whitespace] = false := by
+  decide
+
 end RsslVerif.Thm.C14
